@@ -264,7 +264,7 @@ def wyckoffpos_section(cname):
     return fn
 
 
-SITE_Q = ['hcp', 'hcpoct', 'rumpled', 'rect2', 'l12', 'mono', 'honeycomb', 'fcc111']
+SITE_Q = ['hcp', 'hcpoct', 'rumpled', 'rect2', 'l12', 'mono', 'honeycomb', 'fcc111', 'b2', 'tetra-polar-abx2', 'ortho-ab-general', 'omega', 'wurtzite', 'tric-abc']
 SITE_T = ['sc', 'fcc', 'bcc', 'hcp', 'diamond', 'b2', 'l12', 'nbo', 'bccoct', 'hcpoct', 'square', 'rect2', 'tria', 'honeycomb', 'rumpled',
           'mono', 'afm-square', 'afm-bcc', 'wurtzite', 'fcc111']
 WYCK_Q = ['rect1', 'mono']
